@@ -50,8 +50,9 @@ def run_case(case):
         return fail("total-not-sum-of-terms", {"total": float(total), "terms": got}, labels=labels)
     for t in ["dyn_loss"] + (TERMS_ODE if kind == "ode" else TERMS_PDE):
         if not abs(got[t] - want[t]) <= TOL * (1 + abs(want[t]) + abs(got[t])):
-            return fail(f"system-{t}-value", {"got": got[t], "want": want[t], "w": spec["w"].get(t, "omitted"), "kind": kind,
-                                              "E": E, "U": U}, labels=labels)
+            return fail("system-dyn_loss-value" if t == "dyn_loss" else "system-constraint-term-value",
+                        {"term": t, "got": got[t], "want": want[t], "w": spec["w"].get(t, "omitted"), "kind": kind, "E": E, "U": U},
+                        labels=labels)
     means = [float(np.mean(np.sum(r**2, axis=1))) for r in R.values()]
     dist = lambda v: all(abs(a - b) > 1e-6 for i, a in enumerate(v) for b in v[i + 1:])
     wd = spec["w"].get("dyn_loss")
